@@ -100,6 +100,7 @@ class Model:
     def m_compare(self, ex, st, op, a, b, node): raise NotInSubset(f'compare on {type(self).__name__}')
     def m_contains(self, ex, st, a, node): raise NotInSubset(f'in {type(self).__name__}')
     def m_inplace(self, ex, st, op, rhs, node): raise NotInSubset(f'in-place {op.__name__} on {type(self).__name__}')
+    def m_isinstance(self, ex, st, cls, node): raise NotInSubset(f'isinstance({type(self).__name__}, ...)')
     is_view = False
     def m_load(self, ex, st): raise NotInSubset('load')
     def m_store(self, ex, st, val, node): raise NotInSubset('store')
@@ -193,6 +194,7 @@ class Exec:
                       'real': lambda n: SReal(z3.Real(n)), 'bv8': lambda n: SBV(z3.BitVec(n, 8)),
                       'bv16': lambda n: SBV(z3.BitVec(n, 16))}
         self.kinds.update(kinds or {})
+        self.readonly = set()         # heap keys registered read-only by the models (never havocked by loops)
         self.assumed = set()          # names of assumed primitive models actually used
         self.st0 = None
         self.finished = []            # states that reached the postcondition
@@ -269,6 +271,9 @@ class Exec:
         if h:
             v = h(n.attr, v)
         return v
+
+    def e_JoinedStr(self, st, n):
+        return '<f-string>'      # only ever an argument of print(); never inspected
 
     def e_Tuple(self, st, n):
         out = []
@@ -542,8 +547,88 @@ class Exec:
             p = None
         if p is not None:
             return p(self, st, args, kwargs, node)
+        b = self.builtin_call(st, f, args, kwargs, node)
+        if b is not NotImplemented:
+            return b
         name = getattr(f, '__name__', repr(f))
         raise NotInSubset(f'call of {name} (no contract, not a modelled primitive), line {node.lineno}')
+
+    def builtin_call(self, st, f, args, kwargs, node):
+        """models of Python builtins on symbolic values (Python semantics: min/max keep the first of equal arguments)"""
+        from .logic import ite
+        if f is len and len(args) == 1:
+            a = args[0]
+            if isinstance(a, Model):
+                return a.m_len(self, st, node)
+            if is_sym(a):
+                raise NotInSubset('len of symbolic scalar')
+            return len(a)
+        if f is int and len(args) <= 1 and not kwargs:
+            if not args:
+                return 0
+            a = self.load(st, args[0])
+            if isinstance(a, (SInt, SBV)) or _conc_int(a) is not None:
+                return a if is_sym(a) else int(a)
+            if isinstance(a, SBool):
+                return SInt(to_int(a))
+            if isinstance(a, float):
+                return int(a)
+            raise NotInSubset('int() of this value')
+        if f in (min, max) and not kwargs:
+            vals = [self.load(st, a) for a in (args if len(args) > 1 else self.iter_concrete(st, args[0], node))]
+            if not any(is_sym(v) for v in vals):
+                return f(vals)
+            r = vals[0]
+            for v in vals[1:]:
+                c = (v < r) if f is min else (v > r)
+                r = self.merge_values(st, c, v, r, node) if is_sym(c) else (v if c else r)
+            return r
+        if f is range and not kwargs:
+            args = [self.load(st, a) for a in args]
+            if any(is_sym(a) for a in args):
+                if len(args) == 1:
+                    lo, hi = 0, args[0]
+                elif len(args) == 2:
+                    lo, hi = args
+                else:
+                    raise NotInSubset('symbolic range with step')
+                n = hi - lo
+                n = self.merge_values(st, n < 0, 0, n, node) if is_sym(n) else max(n, 0)
+                return SymIter(n, lambda ex, st_, k: lo + k)
+            return range(*args)
+        if f is enumerate and len(args) == 1:
+            it = args[0]
+            if isinstance(it, Model):
+                it = it.m_iter(self, st, node)
+            if isinstance(it, SymIter):
+                return SymIter(it.length, lambda ex, st_, k: (k, it.item(ex, st_, k)))
+            return list(enumerate(it))
+        if f is zip and not kwargs:
+            its = [a.m_iter(self, st, node) if isinstance(a, Model) else a for a in args]
+            if any(isinstance(i, SymIter) for i in its):
+                raise NotInSubset('zip over symbolic iterables')
+            return list(zip(*its))
+        if f is isinstance and len(args) == 2:
+            a = args[0]
+            if isinstance(a, Model):
+                return a.m_isinstance(self, st, args[1], node)
+            if is_sym(a):
+                if args[1] is int or args[1] == (int,):
+                    return isinstance(a, (SInt,))
+                raise NotInSubset('isinstance on symbolic value')
+            return isinstance(a, args[1])
+        if f is abs and len(args) == 1:
+            a = self.load(st, args[0])
+            if is_sym(a):
+                return self.merge_values(st, a < 0, -a, a, node)
+            return abs(a)
+        if f is bool and len(args) == 1:
+            return self.truth(st, args[0], node)
+        if f is list and len(args) == 1:
+            return list(self.iter_concrete(st, args[0], node))
+        if f is tuple and len(args) == 1:
+            return tuple(self.iter_concrete(st, args[0], node))
+        return NotImplemented
 
     # ------------------------------------------------------------------ statements
     def run_block(self, states, stmts):
@@ -772,10 +857,43 @@ class Exec:
                 h.env.pop(v, None)
                 continue
             h.env[v] = nv
+        # heap: havoc everything the loop may write.  ``modifies`` (heap keys) may be declared by the contract; by default
+        # every z3-valued heap entry that is not registered read-only is havocked.  Undeclared writes are detected after
+        # the body (check_frame) and make the contract non-binding rather than unsound.
+        mod = spec.get('modifies')
+        for key, val in list(h.heap.items()):
+            if mod is not None:
+                if key not in mod:
+                    continue
+            elif key in self.readonly:
+                continue
+            if isinstance(val, z3.ArrayRef):
+                h.heap[key] = z3.Array(f'hv!{next(self.fresh)}', val.domain(), val.range())
+            elif isinstance(val, Sym):
+                nv = self.fresh_like('hv', val)
+                if nv is not None:
+                    h.heap[key] = nv
         hv = spec.get('havoc')
         if hv:
             hv(self, h)
+        h_keys = {k: v for k, v in h.heap.items()}
+        self._frame_ref = (h_keys, mod)
         return h
+
+    def check_frame(self, ref, o, node):
+        h_keys, mod = ref
+        for key, val in o.heap.items():
+            old = h_keys.get(key, None)
+            if old is val:
+                continue
+            changed = not (isinstance(val, (z3.ExprRef, Sym)) and isinstance(old, (z3.ExprRef, Sym)) and
+                           z3.eq(val.e if isinstance(val, Sym) else val, old.e if isinstance(old, Sym) else old)) \
+                if isinstance(val, (z3.ExprRef, Sym)) else (val != old if not isinstance(val, Model) else val is not old)
+            if not changed:
+                continue
+            havocked = (key in mod) if mod is not None else (key not in self.readonly and isinstance(old, (z3.ArrayRef, Sym)))
+            if not havocked and isinstance(val, (z3.ExprRef, Sym)):
+                raise ContractError(f'loop body (line {node.lineno}) writes heap entry {key!r} that the loop contract does not havoc')
 
     def sym_for(self, st, s, it):
         k, spec = self.loop_spec(s)
@@ -785,6 +903,7 @@ class Exec:
         for nm, g in spec['inv'](self, st):
             self.prove(st, f'loop{k}:entry:{nm}', g, s)
         h = self.havoc(st, [s], spec, k)
+        fref = self._frame_ref
         kk = self.fv(idx_name, 'int')
         h.env[idx_name] = kk
         h.assume(kk >= 0)
@@ -797,11 +916,14 @@ class Exec:
         # body
         body = h
         body.assume(kk < n_len)
+        if 'assume' in spec:
+            spec['assume'](self, body)      # definitional axioms / requires instantiated at iteration k (0 <= k < n)
         body.tag(f'loop{k}')
         self.assign(body, s.target, it.item(self, body, kk), s)
         outs = self.run_block([body], s.body)
         after = []
         for o in outs:
+            self.check_frame(fref, o, s)
             if o.ctl in (None, 'continue'):
                 o.ctl = None
                 o.env[idx_name] = kk + 1
@@ -823,6 +945,7 @@ class Exec:
         for nm, g in spec['inv'](self, st):
             self.prove(st, f'loop{k}:entry:{nm}', g, s)
         h = self.havoc(st, s.body, spec, k)
+        fref = self._frame_ref
         for nm, g in spec['inv'](self, h):
             h.assume(g)
         c = self.truth(h, self.ev(h, s.test), s)
@@ -833,6 +956,7 @@ class Exec:
             var0 = spec['variant'](self, body) if 'variant' in spec else None
             outs = self.run_block([body], s.body)
             for o in outs:
+                self.check_frame(fref, o, s)
                 if o.ctl in (None, 'continue'):
                     o.ctl = None
                     for nm, g in spec['inv'](self, o):
